@@ -226,7 +226,12 @@ fn current(world: &World) -> &Proj {
 }
 fn manifest_edited(world: &mut World) {
     if world.next.is_some() {
-        world.write_source("gen.in");
+        // user statements of a project with a separately generated include live in inc.ninja
+        if world.disk.has_subgen() {
+            world.write_source("sub.in");
+        } else {
+            world.write_source("gen.in");
+        }
     }
 }
 
@@ -243,10 +248,10 @@ fn apply_edit(world: &mut World, t: &mut Tape, prof: &Profile) -> Option<String>
         }
         projs.iter().any(|p| p.steps.iter().any(|s| s.ins.iter().chain(&s.imp).chain(&s.oo).any(|x| x == f))) || w.stash.iter().any(|s| s.ins.iter().chain(&s.imp).chain(&s.oo).any(|x| x == f))
     };
-    let plain_sources: Vec<String> = cur.sources.iter().filter(|s| *s != "gen.in").cloned().collect();
+    let plain_sources: Vec<String> = cur.sources.iter().filter(|s| *s != "gen.in" && *s != "sub.in").cloned().collect();
     match kind {
         0 => {
-            if a >= 1 << 15 {
+            if a >= 1 << 15 && !cur.has_subgen() {
                 let st = 1 + pickn(b, 40) as u32;
                 let p = editable(world);
                 if p.style == st {
@@ -311,7 +316,9 @@ fn apply_edit(world: &mut World, t: &mut Tape, prof: &Profile) -> Option<String>
             }
         }
         9 => {
-            let cmds: Vec<usize> = cur.steps.iter().filter(|s| !s.phony).map(|s| s.uid).collect();
+            // (with a separately generated include file the generator statements live in the main file, which
+            // only the main generator rewrites: they are left alone)
+            let cmds: Vec<usize> = cur.steps.iter().filter(|s| !s.phony && !(cur.has_subgen() && s.regen)).map(|s| s.uid).collect();
             let uid = *cmds.get(pickn(a, cmds.len()))?;
             let p = editable(world);
             let s = p.step_mut(uid)?;
@@ -390,7 +397,7 @@ fn apply_edit(world: &mut World, t: &mut Tape, prof: &Profile) -> Option<String>
             let role = pickn(c, 4);
             if b >= 1 << 15 {
                 // add an edge to an existing source or to an output of an earlier step
-                let mut cands: Vec<String> = p.sources.iter().filter(|f| exists(f) && *f != "gen.in").cloned().collect();
+                let mut cands: Vec<String> = p.sources.iter().filter(|f| exists(f) && *f != "gen.in" && *f != "sub.in").cloned().collect();
                 let phony_outs: BTreeSet<String> = p.steps.iter().filter(|s| s.phony).flat_map(|s| s.outs.clone()).collect();
                 for s in &p.steps {
                     if s.uid < uid && !s.regen {
@@ -567,6 +574,10 @@ pub fn judge(inv: &mut Inv, prev_clean: Option<&BTreeSet<usize>>, prev_failed: &
     }
     if sh.reloaded {
         stats.classes.insert("reload".into());
+        let manifest_step_ran = sh.finishes.iter().any(|f| f.outcome == Outcome::Success && inv.proj_before.step(f.uid).map(|s| s.regen && !s.subgen).unwrap_or(false));
+        if !manifest_step_ran {
+            stats.classes.insert("reload-caused-by-included-file-generator-only".into());
+        }
     }
     if sh.pool_full_while_other_ran {
         stats.classes.insert("pool-at-depth".into());
@@ -870,7 +881,7 @@ pub fn run_history_x(case: &Case, prof: &Profile, dir: &Path, opts: &HistOpts) -
     for s in world.disk.steps.clone() {
         if s.deps != 0 {
             let mut inc = vec![];
-            for f in world.disk.sources.iter().filter(|f| *f != "gen.in") {
+            for f in world.disk.sources.iter().filter(|f| *f != "gen.in" && *f != "sub.in") {
                 if !s.ins.contains(f) && !s.imp.contains(f) && mt.chance(35) {
                     inc.push(f.clone());
                 }
@@ -1156,9 +1167,9 @@ pub fn run_shape_case(nouts: usize, ndeps: usize, namelen: usize, multibyte: boo
     };
     let outs: Vec<String> = (0..nouts).map(|i| mk("out", i)).collect();
     let deps: Vec<String> = (0..ndeps).map(|i| mk("h/d", i)).collect();
-    let mut steps = vec![Step { uid: 0, outs: outs.clone(), nexp: 1 + (nouts - 1) / 2, ins: vec!["s0".into()], imp: vec![], oo: vec![], val: vec![], phony: false, ver: 0, pool: None, rsp: None, deps: 1, restat: false, regen: false }];
+    let mut steps = vec![Step { uid: 0, outs: outs.clone(), nexp: 1 + (nouts - 1) / 2, ins: vec!["s0".into()], imp: vec![], oo: vec![], val: vec![], phony: false, ver: 0, pool: None, rsp: None, deps: 1, restat: false, regen: false, subgen: false }];
     for k in 0..extra_steps {
-        steps.push(Step { uid: k + 1, outs: vec![format!("e{}", k)], nexp: 1, ins: vec![outs[k % nouts].clone()], imp: vec![], oo: vec![], val: vec![], phony: false, ver: 0, pool: None, rsp: None, deps: (k % 2) as u8, restat: false, regen: false });
+        steps.push(Step { uid: k + 1, outs: vec![format!("e{}", k)], nexp: 1, ins: vec![outs[k % nouts].clone()], imp: vec![], oo: vec![], val: vec![], phony: false, ver: 0, pool: None, rsp: None, deps: (k % 2) as u8, restat: false, regen: false, subgen: false });
     }
     let n = steps.len();
     let mut sources = vec!["s0".to_string()];
@@ -1216,7 +1227,7 @@ pub fn run_shape_case(nouts: usize, ndeps: usize, namelen: usize, multibyte: boo
 pub fn run_f10_scenario(dir: &Path) -> HistOut {
     let proj_dir = dir.join("p");
     util::fresh_cwd(&proj_dir);
-    let mk = |uid: usize, out: &str| Step { uid, outs: vec![out.to_string()], nexp: 1, ins: vec!["s0".into()], imp: vec![], oo: vec![], val: vec![], phony: false, ver: 0, pool: None, rsp: None, deps: 0, restat: false, regen: false };
+    let mk = |uid: usize, out: &str| Step { uid, outs: vec![out.to_string()], nexp: 1, ins: vec!["s0".into()], imp: vec![], oo: vec![], val: vec![], phony: false, ver: 0, pool: None, rsp: None, deps: 0, restat: false, regen: false, subgen: false };
     let proj = Proj { manifest: "build.ninja".into(), sources: vec!["s0".into()], steps: vec![mk(0, "a"), mk(1, "b")], pools: vec![], order: vec![0, 1], defaults: vec![], builddir: None, style: 0 };
     let mut world = World::new(proj);
     world.write_source("s0");
